@@ -57,6 +57,10 @@ pub fn gen(seed: u64, tier: Tier) -> ScenarioSpec {
         let kind = *rng.pick(&d_enabled);
         spec.disk_faults.push(DiskFault { kind: kind.to_string(), at: rng.below(len as u64 + 64), len: 1 + rng.below(2000), pseed: rng.next_u64() });
     }
+    if rng.chance(1, 1500) {
+        // rare and large: hundreds to tens of thousands of non-final splitter blocks in a row
+        spec.transport_faults.push(TransportFault { kind: "splitter_flood".into(), at: 0, arg: rng.below(64) as i64, pseed: rng.next_u64() });
+    }
     if rng.chance(1, 12) {
         spec.transport_faults.push(TransportFault { kind: "raw_bytes".into(), at: rng.below(4000), arg: rng.below(4) as i64, pseed: rng.next_u64() });
     }
